@@ -54,7 +54,8 @@ def gen_ph(rng, creator=None, eid=None):
     comp = rbytes(rng, 2)
     if c == 'H':
         comp = rng.choice([text(rtext(rng, 2)), [0, rng.randrange(256)], [rng.randrange(1, 256), 0],
-                           text(rtext(rng, 2))])
+                           text(rtext(rng, 2)), [rng.randrange(0x80, 256), rng.randrange(1, 256)],
+                           [rng.randrange(1, 256), rng.randrange(0x80, 256)]])
     return dict(ver=rng.randrange(256), sub=rng.randrange(256), comp=comp, create=t1, commit=t2,
                 creator=ord(c), res=[0, 0], bmc=rid32(rng), cssver=rbytes(rng, 8), plid=rid32(rng),
                 eid=eid if eid is not None else rid32(rng))
